@@ -56,18 +56,29 @@ func opts(st Step) []search.Option {
 	return o
 }
 
+// lineKey is what the property is about on one reported line: depth, score, node count and variation
+// (not the time, nps or any other wall-clock dependent field).
+func lineKey(l srch.Info) string {
+	return fmt.Sprintf("abort=%v depth=%d score=%s nodes=%d pv=%v", l.Abort, l.Depth, l.Score, l.Nodes, l.PV)
+}
+
 func same(a, b srch.Result, allowTrailingAbort bool) string {
 	if a.Score != b.Score || a.Move != b.Move || a.Ponder != b.Ponder {
 		return fmt.Sprintf("results differ: %s vs %s", a.Describe(), b.Describe())
 	}
-	ra, rb := srch.MaskTime(a.Raw), srch.MaskTime(b.Raw)
-	if allowTrailingAbort && len(b.Lines) == len(a.Lines)+1 && b.Lines[len(b.Lines)-1].Abort {
-		rb = rb[:len(rb)-len(b.Lines[len(b.Lines)-1].Raw)-1]
+	la, lb := a.Lines, b.Lines
+	if allowTrailingAbort && len(lb) == len(la)+1 && lb[len(lb)-1].Abort {
+		lb = lb[:len(lb)-1]
 	} else if a.Nodes != b.Nodes {
 		return fmt.Sprintf("node counts differ: %d vs %d", a.Nodes, b.Nodes)
 	}
-	if ra != rb {
-		return fmt.Sprintf("info lines differ:\n%s---\n%s", ra, rb)
+	if len(la) != len(lb) {
+		return fmt.Sprintf("info lines differ in number:\n%s---\n%s", a.Raw, b.Raw)
+	}
+	for i := range la {
+		if lineKey(la[i]) != lineKey(lb[i]) {
+			return fmt.Sprintf("info lines differ:\n%s---\n%s", a.Raw, b.Raw)
+		}
 	}
 	return ""
 }
@@ -237,7 +248,7 @@ func checkCase(c Case, rec *evid.Rec) (err error) {
 
 func TestC08(t *testing.T) {
 	evid.Main(t, "C08", func(rec *evid.Rec) {
-		rec.Rule("whole games (root + playout history, then up to 24 (quick) / 60 (thorough) engine moves) with drawn per-move limits (depth 1..10, soft nodes, hard nodes); three engine instances per game whose tables carry over: A and A' get identical requests and run CONCURRENTLY on separate goroutines while GOMAXPROCS busy goroutines load the machine (thorough: race detector on); B gets WithNodes(N_A) whenever A's search ended at its soft limit after N_A nodes, otherwise the same request. Oracle: A == A' in score, move, ponder, node count and every info line (time field masked); B == A likewise (its single trailing abort line excepted) on this and all later moves; Counters.Nodes <= hard budget always; in half of the games an unrelated fourth engine instance with a different table size is created, resized and searched in the same process between A's search and B's replay (results are a function of the engine's OWN state only). The replay clause is judged only when A returned a move. Non-trivial = search on a warmed table with > 500 nodes; distinct by (game prefix, table, limits)")
+		rec.Rule("whole games (root + playout history, then up to 24 (quick) / 60 (thorough) engine moves) with drawn per-move limits (depth 1..10, soft nodes, hard nodes); three engine instances per game whose tables carry over: A and A' get identical requests and run CONCURRENTLY on separate goroutines while GOMAXPROCS busy goroutines load the machine (thorough: race detector on); B gets WithNodes(N_A) whenever A's search ended at its soft limit after N_A nodes, otherwise the same request. Oracle: A == A' in score, move, ponder, node count and every info line (compared by depth, score, node count and variation; wall-clock dependent fields such as time or nps are not compared); B == A likewise (its single trailing abort line excepted) on this and all later moves; Counters.Nodes <= hard budget always; in half of the games an unrelated fourth engine instance with a different table size is created, resized and searched in the same process between A's search and B's replay (results are a function of the engine's OWN state only). The replay clause is judged only when A returned a move. Non-trivial = search on a warmed table with > 500 nodes; distinct by (game prefix, table, limits)")
 		rec.Assume("SoftTime is not used: wall-clock limits are non-deterministic by design and outside this property")
 		rec.Rapid(t, "game", evid.Pick(2500, 8000), func(t *rapid.T) {
 			root, _ := gen.Root(t)
